@@ -1,4 +1,6 @@
 (* C19 -- local shape generators that are exact tables (definitions only).
+   The literal tables cub_sx, cub_sy, cub_sz, cub_i, cub_j, cub_k and tetra_triangles are TRANSLATED from
+   traces_base.py on every run (Gen/GenShapes.v).
 
    traces_base.make_Cuboid (used by traces_core.make_Cuboid with dimension=obj.dimension):
         "i": [7, 0, 0, 0, 4, 4, 2, 6, 4, 0, 3, 7], "j": [0, 7, 1, 2, 6, 7, 1, 2, 5, 5, 2, 2],
@@ -10,16 +12,9 @@
 
    traces_core.make_Polyline, kind "line":  x, y, z = obj.vertices.T   (the local model IS the vertex list) *)
 From Coq Require Import ZArith List Bool.
-From MV Require Import Lib.ListZ Lib.Rigid Lib.OctZ Model.DisplayModel Model.DisplayExec.
+From MV Require Import Lib.ListZ Lib.Rigid Lib.OctZ Gen.GenShapes Model.DisplayModel Model.DisplayExec Model.DisplayTriangle.
 Import ListNotations.
 Open Scope Z_scope.
-
-Definition cub_sx : list Z := [-1; -1; 1; 1; -1; -1; 1; 1].
-Definition cub_sy : list Z := [-1; 1; 1; -1; -1; 1; 1; -1].
-Definition cub_sz : list Z := [-1; -1; -1; -1; 1; 1; 1; 1].
-Definition cub_i : list Z := [7; 0; 0; 0; 4; 4; 2; 6; 4; 0; 3; 7].
-Definition cub_j : list Z := [0; 7; 1; 2; 6; 7; 1; 2; 5; 5; 2; 2].
-Definition cub_k : list Z := [3; 4; 2; 3; 5; 6; 5; 5; 0; 1; 7; 6].
 
 Fixpoint zip3 (a b c : list Z) : list V3 :=
   match a, b, c with
@@ -79,11 +74,32 @@ Definition polyline_frames (path : list pose) (s : selector) (f : Sc) (vertices 
   object_frames path s f (polyline_line vertices).
 End Polyline.
 
-(* ---- correspondence case: show(Cuboid(dimension=dim)) read from the plotly figure *)
-Inductive scase := CCuboid (dim : V3) (exp_vertices_x2 : list V3) (exp_facets : list V3).
+(* ---- make_Tetrahedron:  triangles = [[0,2,1],[0,3,2],[1,3,0],[1,2,3]] ;  points = check_chirality([vertices])[0]
+   check_chirality: det(p1-p0, p2-p0, p3-p0) < 0  ->  p2 and p3 are exchanged *)
+Definition det3 (a b c : V3) : Z := dot3 a (cross3 b c).
+Definition tetra_vertices (p0 p1 p2 p3 : V3) : list V3 :=
+  if det3 (v3sub p1 p0) (v3sub p2 p0) (v3sub p3 p0) <? 0 then [p0; p1; p3; p2] else [p0; p1; p2; p3].
+Definition tetra_facets : list V3 := tetra_triangles.
+
+Definition tetra_facet_ok (f : V3) : bool :=
+  let '(i, j, k) := f in
+  (0 <=? i) && (i <? 4) && (0 <=? j) && (j <? 4) && (0 <=? k) && (k <? 4)
+  && negb (i =? j) && negb (j =? k) && negb (i =? k).
+(* the facet that does not use vertex m *)
+Definition omits (m : Z) (f : V3) : bool := let '(i, j, k) := f in negb ((m =? i) || (m =? j) || (m =? k)).
+Definition tetra_table_ok : bool :=
+  forallb tetra_facet_ok tetra_facets && (Z.of_nat (length tetra_facets) =? 4)
+  && forallb (fun m => Z.of_nat (length (filter (omits m) tetra_facets)) =? 1) [0; 1; 2; 3].
+
+(* ---- correspondence cases: show(Cuboid(dimension=dim)), show(Tetrahedron(vertices)) read from the plotly figure *)
+Inductive scase :=
+| CCuboid (dim : V3) (exp_vertices_x2 : list V3) (exp_facets : list V3)
+| CTetra (p0 p1 p2 p3 : V3) (exp_vertices : list V3) (exp_facets : list V3).
 Definition check_scase (c : scase) : bool :=
-  match c with CCuboid dim ev ef =>
-    dlist_eqb v3eqb (cuboid_vertices_x2 dim) ev && dlist_eqb v3eqb cuboid_facets ef end.
+  match c with
+  | CCuboid dim ev ef => dlist_eqb v3eqb (cuboid_vertices_x2 dim) ev && dlist_eqb v3eqb cuboid_facets ef
+  | CTetra p0 p1 p2 p3 ev ef => dlist_eqb v3eqb (tetra_vertices p0 p1 p2 p3) ev && dlist_eqb v3eqb tetra_facets ef
+  end.
 Fixpoint sfailing_from (i : Z) (cs : list scase) : list Z :=
   match cs with
   | [] => []
